@@ -53,6 +53,7 @@ type c09One struct {
 	CatKind    int              `json:"cat_kind"`
 	Tasks      [][]c09Op        `json:"tasks"`
 	Sched      c09Sched         `json:"sched"`
+	Focus      string           `json:"focus,omitempty"` // the construct most templates of the bundle contain (evidence only)
 	Decisions  []simrt.Decision `json:"decisions,omitempty"`
 }
 
@@ -208,6 +209,38 @@ func execOp(op c09Op, cc *sut.Compiled, dataMaps, ijMaps []data.Map, cat soymsg.
 }
 
 func opKey(op c09Op) string { return fmt.Sprintf("%+v", op) }
+
+var touched int
+
+// touchValue reads every entry of a data value (maps are iterated, lists indexed), yielding to the
+// scheduler as it goes.
+func touchValue(v data.Value) {
+	simrt.Yield(-9)
+	switch x := v.(type) {
+	case data.Map:
+		for k, e := range x {
+			touched += len(k)
+			touchValue(e)
+		}
+	case data.List:
+		for _, e := range x {
+			touchValue(e)
+		}
+	case data.String:
+		touched += len(x)
+	}
+}
+
+func touchStruct(p *poolData) {
+	simrt.Yield(-9)
+	touched += int(p.A+p.N) + len(p.B) + len(p.H) + len(p.Xs) + len(p.Ss) + len(p.Ms) + len(p.M.B) + len(p.M.Xs)
+	if p.O != nil {
+		touched += len(*p.O)
+	}
+	for _, m := range p.Ms {
+		touched += len(m.B) + len(m.Xs)
+	}
+}
 
 // damage makes a Soy file malformed in one of the ways C05 uses (scanner and parser then take
 // their error paths -- drain, recover -- concurrently with everything else in the run).
@@ -438,6 +471,27 @@ func c09Run(cs *c09One, replay bool) c09Outcome {
 				}
 			})
 		}
+		// the application reads its own inputs while the renders run, as it is entitled to (renders
+		// never modify them): any write to a shared input then has an unsynchronised reader
+		wg.Add(1)
+		simrt.Spawn("observer", func() {
+			defer wg.Done()
+			for pass := 0; pass < 4; pass++ {
+				for _, m := range dataMaps {
+					touchValue(m)
+				}
+				for _, m := range ijMaps {
+					touchValue(m)
+				}
+				touchValue(sut.SharedGlobals)
+				for _, p := range structData {
+					touchStruct(p)
+				}
+				for i := 0; i < 40; i++ {
+					simrt.Yield(-9) // let the clients make progress between two passes
+				}
+			}
+		})
 		simrt.Idle()
 		wg.Wait()
 	})
@@ -522,6 +576,10 @@ func raceSites(report string) (site string, first string) {
 		loc := "?"
 		for j := i + 1; j+1 < len(lines) && strings.TrimSpace(lines[j]) != ""; j += 2 {
 			fn := strings.TrimSpace(lines[j])
+			if strings.Contains(fn, "props.touchValue") || strings.Contains(fn, "props.touchStruct") {
+				loc = "(the application reading its own shared input)"
+				break
+			}
 			if strings.Contains(fn, "robfig/soy") && !strings.Contains(fn, "simrt") {
 				file := strings.TrimSpace(lines[j+1])
 				if k := strings.Index(file, " +0x"); k > 0 {
@@ -562,8 +620,10 @@ func raceLogSize(prefix string) (int64, string) {
 // c09Generate draws the case of run index i of a unit.
 func c09Generate(c *wk.Ctx, run, i int) *c09One {
 	r := simrt.NewRNG(c.UnitSeed(run, uint64(1000+i)))
-	gc := gen.Generate(c.UnitSeed(run, uint64(2000+i)), c09Opts())
-	cs := &c09One{Bundle: gc, CatKind: []int{0, 1, 2, faults.KindPO, faults.KindPO}[r.Intn(5)], Logger: r.Intn(3) == 0}
+	o09 := c09Opts()
+	o09.Focus = gen.FocusFor(c.UnitSeed(run, uint64(2000+i)))
+	gc := gen.Generate(c.UnitSeed(run, uint64(2000+i)), o09)
+	cs := &c09One{Focus: o09.Focus, Bundle: gc, CatKind: []int{0, 1, 2, faults.KindPO, faults.KindPO}[r.Intn(5)], Logger: r.Intn(3) == 0}
 	switch r.Intn(4) {
 	case 1:
 		cs.Obligatory = []string{"vbang"}
@@ -723,6 +783,9 @@ func C09(c *wk.Ctx) {
 			u.Counters["timers_fired"] += o.res.TimersFired
 			u.Counters["clock_jumps"] += o.res.ClockJumps
 			u.Counters["sched_"+cs.Sched.Strategy]++
+			if cs.Focus != "" {
+				u.Counters["focus_"+cs.Focus]++
+			}
 			if len(cs.Obligatory) > 0 {
 				u.Counters["runs_with_obligatory_directives"]++
 			}
